@@ -24,6 +24,7 @@ fn main() {
             let cases = a.u64("cases", if thorough { 40_000 } else { 1_500 });
             pure_c17::run(seed, shard, cases, &mut rep);
         }
+        "c18" => pure_c18::run(seed, shard, a.u64("sequences", if thorough { 1500 } else { 60 }), &mut rep),
         "c19" => {
             let (max_n, max_len, rnd) = if thorough { (3, 9, 20_000) } else { (3, 6, 4_000) };
             pure_c19::run(seed, shard, nshards, a.u64("max_n", max_n) as usize, a.u64("max_len", max_len) as usize, a.u64("random_ops", rnd), &mut rep);
